@@ -99,6 +99,14 @@ def check_call(contract: Contract, call: Callable[[], Any], ns_args: Dict[str, A
                     out.detail = "exceptional postcondition %s is false" % bad[0]
                     return out
         matched = None
+        for xname, cond in getattr(contract, "raises_implies", {}).items():
+            if exc_matches(raised, xname):
+                # one-sided exceptional postcondition: `raise X` implies cond
+                if not bool(cond(ns)):
+                    out.ok = False
+                    out.failed_clause = "raises#%s" % xname
+                    out.detail = "raised %s although its (one-sided) condition does not hold" % xname
+                return out
         for xname in contract.raises:
             if exc_matches(raised, xname):
                 matched = xname
